@@ -46,6 +46,15 @@ def get_module(pid):
 
 def _silence():
     warnings.simplefilter("ignore")
+    prev = sys.unraisablehook
+
+    def hook(u):
+        # event loops the library creates per driver thread are never closed by it; their __del__ at shutdown is noise
+        if "BaseEventLoop.__del__" in repr(getattr(u, "object", "")):
+            return
+        prev(u)
+
+    sys.unraisablehook = hook
 
 
 def worker(job):
